@@ -53,3 +53,12 @@ C15_UNDECIDED = {
     'stdnum.de.handelsregisternummer': 'free-text court name matched against a table of court names (national letters allowed by the property)',
     'stdnum.gs1_128': 'values of application identifiers are re-encoded from decoded Python objects (dates, decimals); the element string is rebuilt',
 }
+
+_REBUILD = 'compact() rebuilds the number (split/join/zfill or re-encoding), so "same string" is not visible as "same cells"'
+_DISPATCH = 'the result is assembled from the result of a dynamically selected module; identity of the string is lost at the dispatch'
+C02_UNDECIDED = {
+    'stdnum.cr.cpf': _REBUILD, 'stdnum.tn.mf': _REBUILD, 'stdnum.mac': _REBUILD, 'stdnum.isan': _REBUILD, 'stdnum.meid': _REBUILD,
+    'stdnum.gs1_128': _REBUILD, 'stdnum.de.handelsregisternummer': _REBUILD,
+    'stdnum.nl.postcode': 'the canonical form contains the blank that compact() deletes; validate() re-inserts it (fixed point of validate, not of compact)',
+    'stdnum.eu.vat': _DISPATCH, 'stdnum.vatin': _DISPATCH, 'stdnum.us.tin': _DISPATCH,
+}
